@@ -284,6 +284,7 @@ class MQTTBaseProtocol(Protocol):
         self.IDLE        = IdleState(self)
         self.CONNECTING  = ConnectingState(self)
         self.CONNECTED   = ConnectedState(self)
+        self.DISCONNECTING = BaseState(self)  # DISCONNECT sent: refuses everything, ignores every packet
         self.state       = self.IDLE
         self.factory     = factory
         self._initialT   = self.TIMEOUT_INITIAL # Initial timeout for retransmissions
@@ -511,12 +512,7 @@ class MQTTBaseProtocol(Protocol):
 
     def connectionLost(self, reason):
         log.debug("--- Connection to MQTT Broker lost")
-        if self._pingReq.timer:
-            self._pingReq.timer.stop()
-            self._pingReq.timer = None
-        for alarm in self._pingReq.alarms:
-            alarm.cancel()
-        self._pingReq.alarms = []
+        self._stopKeepalive()
         self.doConnectionLost(reason)
         self.state = self.IDLE
         # The disconnect callback is invoked in another reactor loop cycle
@@ -675,6 +671,10 @@ class MQTTBaseProtocol(Protocol):
         log.debug("==> {packet:7}",packet="DISCONNECT")
         self.transport.write(request.encode())
         self.transport.loseConnection()
+        # DISCONNECT is the last packet of the connection: no more keepalive
+        # and no more requests until the transport reports the loss
+        self._stopKeepalive()
+        self.state = self.DISCONNECTING
 
     # ------------------------------------------------------------------------
 
@@ -729,6 +729,19 @@ class MQTTBaseProtocol(Protocol):
     # --------------
     # Helper methods
     # --------------
+
+    def _stopKeepalive(self):
+        '''
+        Stop sending PINGREQ packets and waiting for PINGRESP
+        '''
+        if self._pingReq.timer:
+            self._pingReq.timer.stop()
+            self._pingReq.timer = None
+        for alarm in self._pingReq.alarms:
+            alarm.cancel()
+        self._pingReq.alarms = []
+
+    # ------------------------------------------------------------------------
 
     def _checkConnect(self, request):
         '''
